@@ -56,7 +56,10 @@ Definition rat (q : Q) : surd := mkSurd q 1.
 
 (** * the abstract geometry *)
 Record layer := mkLayer { lname : str; lbot : Q; lcen : Q; ltop : Q }.
-Record column := mkColumn { cname : str; csurf : Q; carea : Q; ccx : Q; ccy : Q; cnn : nat }.
+(** [cpoly]: the positions of the column's nodes, in the column's node order ([col.polygon]);
+    [carea] is the stored [col.area] -- set by [column.get_area] to [polygon_area cpoly], see
+    [areas_from_nodes] below *)
+Record column := mkColumn { cname : str; csurf : Q; carea : Q; ccx : Q; ccy : Q; cnn : nat; cpoly : list (Q * Q) }.
 (** a column connection: the two columns ([con.column]) and the end points of the shared
     edge ([con.node[0].pos], [con.node[1].pos]) *)
 Record hconn := mkHconn { hcolA : column; hcolB : column; hax : Q; hay : Q; hbx : Q; hby : Q }.
@@ -72,6 +75,38 @@ Record geom := mkGeom {
   tiltx : Q; tilty : Q; tiltz : Q;  (* tilt_vector *)
   pcos : Q; psin : Q              (* cos / sin of radians(permeability_angle) *)
 }.
+
+(** * geometry.polygon_area / polygon_centroid (geometry.py 89-114) *)
+Definition pt := (Q * Q)%type.
+Definition psub (p s : pt) : pt := (qsub (fst p) (fst s), qsub (snd p) (snd s)).
+(** the pairs (p_j, p_{(j+1) mod n}) of [for j, p1 in enumerate(polygon): p2 = polygon[(j+1) % n]] *)
+Definition cyc_pairs (l : list pt) : list (pt * pt) :=
+  match l with [] => [] | p :: r => combine l (r ++ [p]) end.
+(** one pass of the loop of polygon_area: area += p1[0] * p2[1] - p2[0] * p1[1] *)
+Definition area_step (a : Q) (p1 p2 : pt) : Q :=
+  qadd a (qsub (qmul (fst p1) (snd p2)) (qmul (fst p2) (snd p1))).
+Definition polygon_area (l : list pt) : Q :=
+  match l with
+  | [] => qmul (1 # 2) 0
+  | s :: _ =>                                     (* polygon -= polygon[0] *)
+      qmul (1 # 2) (fold_left (fun a pq => area_step a (fst pq) (snd pq)) (cyc_pairs (map (fun p => psub p s) l)) 0)
+  end.
+(** one pass of the loop of polygon_centroid: t = cross; area += t; c += (p1 + p2) * t *)
+Definition cen_step (acc : Q * pt) (p1 p2 : pt) : Q * pt :=
+  let t := qsub (qmul (fst p1) (snd p2)) (qmul (fst p2) (snd p1)) in
+  (qadd (fst acc) t,
+   (qadd (fst (snd acc)) (qmul (qadd (fst p1) (fst p2)) t), qadd (snd (snd acc)) (qmul (qadd (snd p1) (snd p2)) t))).
+(** area *= 0.5; return c / (6. * area) + shift *)
+Definition cen_final (acc : Q * pt) (shift : pt) : pt :=
+  let d := qmul 6 (qmul (fst acc) (1 # 2)) in
+  (qadd (qdiv (fst (snd acc)) d) (fst shift), qadd (qdiv (snd (snd acc)) d) (snd shift)).
+(** polygons of three or more nodes (the n < 3 branch, a mean of the points, is not modelled) *)
+Definition polygon_centroid (l : list pt) : option pt :=
+  match l with
+  | s :: _ :: _ :: _ =>
+      Some (cen_final (fold_left (fun a pq => cen_step a (fst pq) (snd pq)) (cyc_pairs (map (fun p => psub p s) l)) (0, (0, 0))) s)
+  | _ => None
+  end.
 
 (** * names (mulgrids.py 54-59, 867-881, 1446-1455) *)
 Open Scope char_scope.
